@@ -123,7 +123,7 @@ def prove(prop, mod):
         if b.startswith('Closed under'):
             discharged += 1 if name in thms else 0
             continue
-        names = re.findall(r'^([A-Za-z_][\w.\']*)\s*:', b, flags=re.M)
+        names = [n for n in re.findall(r'^([A-Za-z_][\w.\']*)(?:\s*:|\s*$)', b, flags=re.M) if n != 'Axioms']
         extra = [n for n in names if n not in ALLOWED_AXIOMS]
         axioms.update(names)
         if extra:
